@@ -118,6 +118,13 @@ func c06Inputs() []c06Input {
 	// several commodities collapsed onto one node by -m: their weights are added up
 	in = append(in, c06Input{Name: "weights-collapsed-16-digits", Files: map[string]string{"j.knut": grouped, "u.yaml": "Stocks: [AAA, BBB, CCC, DDD]\n"},
 		Args: []string{"portfolio", "weights", "-v", "CHF", "--universe", "u.yaml", "-m", "1,.", "--digits", "16", "--color=false", "j.knut"}})
+	// one file of 40 000 transactions (more than any batch size a loader might use)
+	var huge strings.Builder
+	for i := 0; i < 40000; i++ {
+		fmt.Fprintf(&huge, "2020-%02d-%02d \"t%05d\"\nAssets:Bank Expenses:Food %d.%02d CHF\n\n", 1+(i/3400)%12, 1+i%28, i, 1+i%977, i%100)
+	}
+	in = append(in, c06Input{Name: "huge-file-balance", Files: map[string]string{"j.knut": "2019-12-31 open Assets:Bank\n2019-12-31 open Expenses:Food\ninclude \"big.knut\"\n", "big.knut": huge.String()},
+		Args: []string{"balance", "--color=false", "--months", "j.knut"}, BinaryOnly: true})
 	// infer with a large model (40 accounts) in which the candidates are exactly tied
 	var bigTrain strings.Builder
 	bigTrain.WriteString("2020-01-01 open Assets:Bank\n")
